@@ -556,6 +556,12 @@ func (g *Gen) modify(s *gsession) {
 		}
 
 		b.dl = np
+
+		if np.UE == "alloc" && g.R.Intn(2) == 0 {
+			// like a control plane that repeats the address it was given in the Created PDR as an ordinary value
+			np.UE, np.UEIP = "explicit", s.ueip
+		}
+
 		r.UPDR = append(r.UPDR, np)
 		g.Stats["mod_updr"]++
 	case 3: // new bearer
